@@ -150,6 +150,8 @@ func (o fsOp) String() string {
 		return fmt.Sprintf("%s(%s,%s)", o.Kind, o.Path, o.Len)
 	case "heldwrite", "heldread":
 		return fmt.Sprintf("%s(off=%s,len=%s)", o.Kind, o.Off, o.Len)
+	case "rmw":
+		return fmt.Sprintf("read-then-write(%s,off=%s,len=%s)", o.Path, o.Off, o.Len)
 	case "release":
 		return "release"
 	}
@@ -826,6 +828,59 @@ func (s *fatSys) apply(op fsOp) (err error, viols []explore.Viol) {
 				}
 			}
 		}
+	case "rmw":
+		// read-modify-write through ONE handle: open read-write, read the first bytes, then write at an offset
+		node := m.get(op.Path)
+		cur := 0
+		if node != nil {
+			cur = len(node.Data)
+		}
+		off, ln := s.resolveOff(op.Off, cur), s.resolveLen(op.Len, cur)
+		data := patternBytes(seed, ln)
+		var got []byte
+		pm := guard(func() {
+			var f filesystem.File
+			f, err = s.fs.OpenFile(op.Path, os.O_RDWR)
+			if err != nil {
+				return
+			}
+			defer f.Close()
+			buf := make([]byte, s.cb+1)
+			k, e := f.Read(buf)
+			if e != nil && e != io.EOF {
+				err = e
+				return
+			}
+			got = buf[:k]
+			if _, err = f.Seek(int64(off), io.SeekStart); err != nil {
+				return
+			}
+			_, err = f.Write(data)
+		})
+		if pm != "" {
+			add("rmw|"+pm, pm)
+			return errors.New(pm), viols
+		}
+		if err != nil {
+			return err, viols
+		}
+		if node == nil || node.Dir {
+			add("rmw|accepted-impossible", fmt.Sprintf("%s succeeded although the reference tree has no such file", op))
+			return nil, viols
+		}
+		if s.oracle == "model" {
+			want := node.Data
+			if len(want) > s.cb+1 {
+				want = want[:s.cb+1]
+			}
+			if string(got) != string(want) {
+				add("rmw|read-before-write|content", fmt.Sprintf("%s: the read before the write returned %d bytes that differ from the first %d bytes of the file", op, len(got), len(want)))
+			}
+		}
+		if off+ln > len(node.Data) {
+			node.Data = append(node.Data, make([]byte, off+ln-len(node.Data))...)
+		}
+		copy(node.Data[off:], data)
 	case "rename":
 		pm := guard(func() { err = s.fs.Rename(op.Path, op.Path2) })
 		if pm != "" {
